@@ -140,6 +140,10 @@ class CompRun(object):
             text = '#include "inc/missing.prophy"\n' + text
         elif inc == 3:
             text = '#include "s.prophy"\n' + text
+        ginc = corrupt.graph_include_text(plan["corruptions"]) if syntax == "isar" else None
+        if ginc is not None:
+            fs.put("/w/inc/graph.xml", ginc)
+            self.faults["isar-include-of-drawn-graph"] = self.faults.get("isar-include-of-drawn-graph", 0) + 1
         fs.put(main, text)
         argv = []
         if syntax == "isar":
@@ -245,7 +249,10 @@ class CompRun(object):
             return self.v("C13", "escape-prophy-text", "C13/escape/prophy/%s/%s" % (outcome, where),
                           "prophy-language input made prophyc.main raise %s (%s) instead of a file:line:col diagnostic: %s\n"
                           "argv %s\n%s" % (outcome, where, str(exc)[:300], argv, text[:700]))
-        if isinstance(exc, INTERNAL) and not explicit:
+        # "either succeeds or fails with a message from its designed error channel": an exception that prophyc did not
+        # raise on purpose is not a message of any designed channel, whatever its class (ZeroDivisionError, OverflowError,
+        # MemoryError ... next to the classes the statement lists); OSError from the environment is not prophyc's
+        if not explicit and not isinstance(exc, OSError):
             src = "patch" if plan["patch"] is not None and "patch.py" in where else syntax
             return self.v("C13", "escape-internal", "C13/escape/%s/%s/%s" % (src, outcome, where),
                           "prophyc.main let an internal %s escape (%s): %s\nargv %s\n%s" %
@@ -281,6 +288,14 @@ class CompRun(object):
                 f2.put("/w/base.prophy", fs.get("/w/inc/base.prophy"))
                 simworld.run_prophyc(f2, ["--python_out", "/w/out", "/w/base.prophy"])
                 sources["base"] = f2.get("/w/out/base.py")
+            if fs.get("/w/inc/graph.xml") is not None:
+                f2 = simfs.FakeFS("/w")
+                f2.mkdir("/w/out")
+                f2.put("/w/graph.xml", fs.get("/w/inc/graph.xml"))
+                _, e2, _, _ = simworld.run_prophyc(f2, ["--isar", "--python_out", "/w/out", "/w/graph.xml"])
+                if e2 is not None or f2.get("/w/out/graph.py") is None:
+                    return None    # the included part does not compile alone: nothing to import against
+                sources["graph"] = f2.get("/w/out/graph.py")
             try:
                 simworld.import_generated(sources, want=["s"])
                 self.count("imported")
